@@ -303,7 +303,21 @@ func (w *hw) checkRequest(ex *expect, pre, post tables, q map[string][]qItem, ex
 		return
 	}
 	w.rec.Count("request_failed_although_eligible", 1)
-	w.rec.Sample(map[string]any{"note": "request failed although eligible validators exist", "op": ex, "eligible": keys(elig)})
+	w.refusedAlthoughEligible(ex.Kind, ex.Chain, ex.Mev, ex.ErrText, elig, pre)
+}
+
+// refusedAlthoughEligible: a request failed while validators meeting every condition of the
+// statement exist. "Every message that needs relaying is assigned to [such] a validator": when the
+// refusal is the assigner saying that nobody can be assigned, that is a violation; any other
+// failure (unknown job, undecodable payload ...) is outside the statement and only sampled.
+func (w *hw) refusedAlthoughEligible(kind, ch string, mev bool, errText string, elig map[string]bool, t tables) {
+	if strings.Contains(errText, "no validators eligible for assignment") || strings.Contains(errText, "no assignable validators for message") {
+		w.rec.Violation("enqueue/"+kind+"/refused-as-unassignable-although-eligible-validator-exists",
+			fmt.Sprintf("%s request on %s (mev %v) was refused (%s) although %d validator(s) meet every assignment condition: %v", kind, ch, mev, firstLine(errText), len(elig), keys(elig)),
+			w.witness(map[string]any{"chain": ch, "mev": mev, "error": firstLine(errText), "eligible": keys(elig), "tables": tablesBrief(t)}))
+		return
+	}
+	w.rec.Sample(map[string]any{"note": "request failed although eligible validators exist (not an assignment refusal)", "kind": kind, "chain": ch, "mev": mev, "err": firstLine(errText), "eligible": keys(elig)})
 }
 
 func (w *hw) checkFees(t tables, q map[string][]qItem) {
@@ -628,7 +642,7 @@ func (w *hw) probe(t tables) {
 					w.rec.Count("probe_pick_refused_no_eligible", 1)
 				} else {
 					w.rec.Count("probe_pick_failed_although_eligible", 1)
-					w.rec.Sample(map[string]any{"note": "pick failed although eligible validators exist", "chain": ch, "err": firstLine(err.Error()), "eligible": keys(elig)})
+					w.refusedAlthoughEligible("pick", ch, false, err.Error(), elig, t)
 				}
 				continue
 			}
@@ -673,7 +687,7 @@ func (w *hw) probe(t tables) {
 						w.rec.Count("probe_job_refused_no_eligible", 1)
 					} else {
 						w.rec.Count("probe_job_failed_although_eligible", 1)
-						w.rec.Sample(map[string]any{"note": "what-if job failed although eligible validators exist", "chain": ch, "mev": mev, "err": firstLine(err.Error())})
+						w.refusedAlthoughEligible("job", ch, mev, err.Error(), elig, t)
 					}
 					continue
 				}
